@@ -156,10 +156,10 @@ def C02(tier):
     q = tier == "quick"
     N, M = nm(q, (3, 3), (4, 4))
     sh = shapes(N, M)
-    dims = {"P1": [0, 1], "SZ": [0, 1, 2, 3], "VIRT": [0, 1]} if q else {"P1": [0, 1], "P2": [0, 1], "SZ": [0, 1, 2, 3], "VIRT": [0, 1]}
+    dims = {"P1": [0, 1], "SZ": [0, 1, 2, 3], "VIRT": [0, 1]}
     obs = [layout_ob("layout-same-graph", "Harness_E_C02", sh, dims, consts={"P4": 4, "P5": 2},
                      bounds="all canonical edge lists N<=%d M<=%d x cycle breakers%s x size options {none, fixed, per-node all, fixed+per-node some} x "
-                            "virtual-node output; symbolic sizes and spacings" % (N, M, "" if q else " x layerers"))]
+                            "virtual-node output; symbolic sizes and spacings" % (N, M, ""))]
     obs.append(unreverse_ob(tier))
     if not q:
         obs.append(layout_ob("layout-same-graph-lp", "Harness_E_C02", shapes(3, 3), {"P1": [0, 1], "SZ": [3], "VIRT": [0, 1], "P4": [1, 5]},
@@ -529,12 +529,12 @@ def layered_ob(tier, algs, name="positioner-on-layered-graphs"):
 
 def C16(tier):
     q = tier == "quick"
-    N, M = nm(q, (4, 3), (5, 4))
-    sh = shapes(N, M, connected=True) + (shapes(3, 4, connected=True) if q else shapes(4, 5, connected=True, selfloops=False))
+    N, M = nm(q, (4, 3), (4, 4))
+    sh = shapes(N, M, connected=True) + (shapes(3, 4, connected=True) if q else shapes(5, 4, connected=True, selfloops=False))
     obs = [layout_ob("layout-valign-packright", "Harness_E_C16", sh, {"P4": [1, 5], "P1": [0, 1], "P3": [1, 0]},
                      consts={"P2": 0, "P5": 2, "SZ": 2, "VIRT": 1},
                      bounds="all canonical connected edge lists (%s) x {VAlign,PackRight} x {greedy,dfs} x {weighted-median ordering, no ordering}, helper nodes in the output; %s (LayerSpacing>=1)" % (
-                         nm(q, "N<=4 M<=3, N<=3 M<=4", "N<=5 M<=4, N<=4 M<=5"), SYMB)),
+                         nm(q, "N<=4 M<=3, N<=3 M<=4", "N<=4 M<=4, N<=5 M<=4 loop-free"), SYMB)),
            layered_ob(tier, [1, 5], name="valign-packright-on-layered-graphs")]
     return dict(obligations=obs)
 
